@@ -307,8 +307,66 @@ func runFont(c *wk.Case) {
 	}
 }
 
+// refCmap compares the character mapping of the written file, decoded by the
+// harness's own specification-conforming decoder, with the font's mapping.
+func refCmap(c *wk.Case, f *sfnt.Font, b []byte) {
+	best, _ := f.CMapTable.GetBest()
+	if best == nil {
+		return
+	}
+	dir, err := simgen.ParseDirectory(b)
+	if err != nil {
+		return
+	}
+	var table []byte
+	for _, e := range dir.Entries {
+		if e.Tag == "cmap" {
+			table = b[e.Offset : e.Offset+e.Length]
+		}
+	}
+	if table == nil {
+		c.Fail("independent-cmap", "missing", "the font has a character map but the written file has no cmap table")
+	}
+	ref, err := simgen.NewRefCmap(table)
+	if err != nil {
+		c.Count("refcmap_declined", 1)
+		c.Class("refcmap-declined: " + err.Error())
+		return
+	}
+	lo, hi := best.CodeRange()
+	check := func(r rune) {
+		if r < 0 || r > 0x10FFFF {
+			return
+		}
+		got, err := ref.Lookup(r)
+		if err != nil {
+			c.Fail("independent-cmap", "malformed", "reference decoder: %v (rune %U)", err, r)
+		}
+		if want := best.Lookup(r); glyph.ID(got) != want {
+			c.Fail("independent-cmap", "GlyphIndex", "rune %U: a specification-conforming decoder of the written cmap table gives glyph %d, the font maps it to %d", r, got, want)
+		}
+	}
+	if hi-lo < 1500 {
+		for r := lo - 1; r <= hi+1; r++ {
+			check(r)
+		}
+	} else {
+		for i := 0; i < 600; i++ {
+			check(lo + rune(c.T.Draw(int(hi-lo)+1)))
+		}
+		for r := lo - 1; r < lo+300; r++ {
+			check(r)
+		}
+		for r := hi - 300; r <= hi+1; r++ {
+			check(r)
+		}
+	}
+	c.Count("refcmap_fonts_checked", 1)
+}
+
 // independent compares with golang.org/x/image/font/sfnt (incidental oracle).
 func independent(c *wk.Case, f *sfnt.Font, b []byte) {
+	refCmap(c, f, b)
 	var xf *xsfnt.Font
 	var err error
 	if pi := c.Guard(func() { xf, err = xsfnt.Parse(b) }); pi != nil {
